@@ -1267,19 +1267,41 @@ def slots(repo, out):
     for name in SOL2JAC_CONSUMERS:
         fn = tj(repo, name)
         cx = Ctx(fn)
-        unp = [st for st in astx.walk_stmts(fn.node.body) if isinstance(st, ast.Assign) and
-               isinstance(st.value, ast.Subscript) and astx.path(st.value.value) == 'self.sol2jac_map'
-               and isinstance(st.targets[0], ast.Tuple) and len(st.targets[0].elts) == 3]
-        if len(unp) != 1:
-            out.unsure(fn, fn.node, 'unpacking of self.sol2jac_map[mode] not found')
+        # slot variables: tuple unpacking of self.sol2jac_map[m] (directly or through a local holding the
+        # entry) or constant indexing  entry[0] / self.sol2jac_map[m][1]
+        def is_entry(e, at, depth=0):
+            if isinstance(e, ast.Subscript) and astx.path(e.value) == 'self.sol2jac_map':
+                return True
+            if isinstance(e, ast.Name) and depth < 3:
+                v, d = cx.alias(e.id, at)
+                return v is not None and is_entry(v, d, depth + 1)
+            return False
+        slot = {}
+        slot_stmts = []
+        for st in astx.walk_stmts(fn.node.body):
+            if not isinstance(st, ast.Assign) or len(st.targets) != 1:
+                continue
+            t, v = st.targets[0], st.value
+            at = cx.node(st)
+            if isinstance(t, ast.Tuple) and is_entry(v, at):
+                for i, e in enumerate(t.elts):
+                    if isinstance(e, ast.Name) and e.id != '_':
+                        slot[e.id] = i
+                slot_stmts.append(st)
+            elif isinstance(t, ast.Name) and isinstance(v, ast.Subscript) and isinstance(v.slice, ast.Constant) \
+                    and isinstance(v.slice.value, int) and is_entry(v.value, at):
+                slot[t.id] = v.slice.value
+                slot_stmts.append(st)
+        byslot = {i: [n for n, k in slot.items() if k == i] for i in (0, 1)}
+        if len(byslot[0]) != 1 or len(byslot[1]) != 1:
+            out.unsure(fn, fn.node, 'unpacking / indexing of self.sol2jac_map[mode] not found')
             continue
-        a, b = unp[0].targets[0].elts[:2]
-        if not (isinstance(a, ast.Name) and isinstance(b, ast.Name)):
-            out.unsure(fn, unp[0], 'unpack targets are not names')
-            continue
+        a = ast.Name(id=byslot[0][0], ctx=ast.Load())
+        b = ast.Name(id=byslot[1][0], ctx=ast.Load())
+        unp = [slot_stmts[0]]
         use = {a.id: set(), b.id: set()}
         for st in astx.walk_stmts(fn.node.body):
-            if st is unp[0]:
+            if st in slot_stmts:
                 continue
             for x in own_walk(st):
                 if isinstance(x, ast.Name) and x.id in use and isinstance(x.ctx, ast.Load):
@@ -3243,6 +3265,10 @@ selftest(
            "        if is_flat:\n            for key, block in jac_dict.items():\n                out_name, in_name = key\n"
            "                block *= self._desvar_unit_scalers.get(in_name) or 1.0\n            return\n"
            "        if is_flat:\n            for (out_name, in_name), block in jac_dict.items():", 'C01.scaling'),
+    Mutant('sol2jac-indexed-slots-swapped', TJ, "        deriv_idxs, jac_idxs, _ = self.sol2jac_map[mode]\n\n        deriv_val = self.output_vec[mode].asarray()\n        if self.jac_scratch is None:\n            reduced_derivs = deriv_val[deriv_idxs]",
+           "        s2j = self.sol2jac_map[mode]\n        deriv_idxs = s2j[1]\n        jac_idxs = s2j[0]\n\n"
+           "        deriv_val = self.output_vec[mode].asarray()\n        if self.jac_scratch is None:\n"
+           "            reduced_derivs = deriv_val[deriv_idxs]", 'C01.slots'),
     Mutant('rev-transfer-restored-fwd', GROUP, "                    vec_inputs.scale_to_phys(mode='rev')",
            "                    vec_inputs.scale_to_phys()", 'C01.transfer-scaling'),
     Mutant('apply-linear-outputs-left-scaled', 'openmdao/core/implicitcomponent.py',
@@ -3530,6 +3556,10 @@ selftest(
          "                if out_scaler:\n                    block *= out_scaler\n"
          "                in_scaler = self._desvar_unit_scalers.get(in_name)\n"
          "                if in_scaler:\n                    block *= (1.0 / in_scaler)\n            return\n        if True:\n"),
+    Twin('twin-sol2jac-indexed', TJ, "        deriv_idxs, jac_idxs, _ = self.sol2jac_map[mode]\n\n        deriv_val = self.output_vec[mode].asarray()\n        if self.jac_scratch is None:\n            reduced_derivs = deriv_val[deriv_idxs]",
+         "        s2j = self.sol2jac_map[mode]\n        deriv_idxs = s2j[0]\n        jac_idxs = s2j[1]\n\n"
+         "        deriv_val = self.output_vec[mode].asarray()\n        if self.jac_scratch is None:\n"
+         "            reduced_derivs = deriv_val[deriv_idxs]"),
     Twin('twin-scalings-commuted', TJ, "                self._apply_unit_scaling(self.J_dict)\n\n                # Driver scaling.\n                if self.has_scaling:\n                    self._driver._autoscaler.apply_jac_scaling(self.J_dict)\n\n",
          "                # Driver scaling.\n                if self.has_scaling:\n"
          "                    self._driver._autoscaler.apply_jac_scaling(self.J_dict)\n\n"
